@@ -79,8 +79,15 @@ def judge(ctx, what, ans, replay, want_complete=None, impl=None, sy=None, confir
             ctx.violation(f"{what}: model minimisation failed {ms}", replay, confirmed=False)
             return
         ctx.tally("minify_option_checked")
-        if size_impl != ms[1]:
-            problems.append(f"minify=True result has {size_impl} states, the minimal DFA for this language has {ms[1]}")
+        # the minimum for the result's OWN kind (C05): a partial result has one state per non-dead residual class
+        # (at least one); a complete result additionally has the dead class when the language has one, i.e. when
+        # the minimal partial DFA is not already complete
+        live, live_is_partial = ms[1][0], bool(ms[1][1])
+        impl_partial = impl is not None and bool(impl.allow_partial)
+        want = live if impl_partial else live + (1 if live_is_partial else 0)
+        if size_impl != want:
+            problems.append(f"minify=True result ({'partial' if impl_partial else 'complete'}) has {size_impl} states, "
+                            f"the minimum for a DFA of that kind is {want}")
     if not valid_impl:
         problems.append("result does not satisfy the validity rules")
     if not valid_model:
@@ -132,7 +139,7 @@ def check_tree(ctx, t, tag):
              sample={"tree": show_tree(t), "result_states": len(impl.states)})
     root_min = (t[0] == "bin" and (t[2] == "operator" or t[3]["minify"])) or \
                (t[0] == "compl" and (t[1] == "operator" or t[2]["minify"]))
-    judge(ctx, "expression " + show_tree(t)[:80], ans, replay, sy=sy, want_minimal=root_min,
+    judge(ctx, "expression " + show_tree(t)[:80], ans, replay, sy=sy, want_minimal=root_min, impl=impl,
           confirm=lambda w: f"(result accepts: {impl.accepts_input(w)}, operation on operand verdicts: {sem(t, w)})")
 
 
@@ -184,6 +191,14 @@ def run(ctx):
     for i in range(ctx.n(260, 5000)):
         sigma = gen.rand_alphabet(rng)
         t = rand_tree(rng, sigma, rng.choice([1, 1, 2, 2, 3]))
+        for _ in range(20):
+            # the model evaluates the whole tree without minimising inner nodes: keep the full product small
+            bound = 1
+            for dd in leaves(t):
+                bound *= len(dd["states"]) + 1
+            if bound <= 700:
+                break
+            t = rand_tree(rng, sigma, rng.choice([1, 2, 2]))
         if t[0] == "leaf":
             t = ("bin", rng.choice(OPS), "method", dict(retain_names=False, minify=False), t,
                  ("leaf", gen.rand_dfa_def(rng, nmax=5, alphabet=sigma)))
